@@ -673,7 +673,7 @@ func (t *UpdateTran) update(th *core.Thread, table string, oldoff uint64, newrec
 		}()
 		for i := range ts.Indexes {
 			if oldkeys[i] != newkeys[i] {
-				t.fkeyUpdateCascade(th, ts, i, newrec, oldkeys[i])
+				t.fkeyUpdateCascade(th, ts, i, newrec, oldkeys[i], oldoff)
 			}
 		}
 		for i := range ts.Indexes {
@@ -694,7 +694,7 @@ func (t *UpdateTran) update(th *core.Thread, table string, oldoff uint64, newrec
 }
 
 func (t *UpdateTran) fkeyUpdateCascade(th *core.Thread, ts *meta.Schema, i int,
-	rec core.Record, key string) { // rec is old, key is new
+	rec core.Record, key string, recoff uint64) { // rec is new, key is old
 	ix := ts.Indexes[i]
 	ixcols := ix.Columns
 	encoded := ix.Ixspec.Encodes()
@@ -710,6 +710,9 @@ func (t *UpdateTran) fkeyUpdateCascade(th *core.Thread, ts *meta.Schema, i int,
 		ft := fkeyTran{t}
 		for iter.Next(ft); !iter.Eof(); iter.Next(ft) {
 			off := iter.CurOff()
+			if off == recoff && fkth.Table == ts.Table {
+				continue // the record being updated references itself
+			}
 			oldrec := t.GetRecord(off)
 			rb := core.RecordBuilder{}
 			for i, col2 := range ts2.Columns {
